@@ -7,6 +7,7 @@ stanza equal to its serialisation must leave at the bottom (messages: exactly on
 from sx import core, hooks, harness as H
 from checks import stanza_common as SC, stack_common as ST, c09, c09_templates as T
 
+DEFAULT_TIMEOUT_S = 40          # a case of this check takes about a second; a tree on which it takes longer than this is not explored further
 PROPERTY = "C06"
 LEVEL = "model_checking"
 CODE = ["yowsup/layers/__init__.py:YowLayer/YowProtocolLayer/YowParallelLayer", "yowsup/stacks/yowstack.py:YowStack/YowStackBuilder.getProtocolLayers",
